@@ -20,6 +20,7 @@ import json
 import os
 import random
 import tempfile
+from concurrent.futures import ThreadPoolExecutor
 
 from . import tlc
 from .common import BUILD, Report, jdump, use_repo
@@ -153,7 +154,18 @@ def replay_read(beh, tmpdir, drift):
         for h in beh["hist"]:
             a = h["a"]
             if a == "Create":
-                if kind == "file":
+                if kind == "file" and not sc["seek"]["on"] and (sc["n"] + k) % 2 == 0:
+                    # the same through attach_file(...) + getDetails()
+                    import testtools
+
+                    class _T(testtools.TestCase):
+                        def test_it(self):
+                            pass
+
+                    case = _T("test_it")
+                    tc.attach_file(case, path, name="c16", chunk_size=k, buffer_now=bnow)
+                    content = case.getDetails()["c16"]
+                elif kind == "file":
                     content = tc.content_from_file(path, **kw)
                 else:
                     content = tc.content_from_stream(stream, **kw)
@@ -602,8 +614,38 @@ TEXT_REPS = {
 }
 
 
-def check_eq_row(r):
+_USER = []
+
+
+def user_content_class():
     from testtools.content import Content
+
+    if not _USER:
+
+        class UserContent(Content):
+            """A trivial user subclass of Content."""
+
+        _USER.append(UserContent)
+    return _USER[0]
+
+
+def make_operand(kind, ctype, chunks):
+    from testtools import testcase
+    from testtools.content import Content
+
+    cls = user_content_class() if kind in ("subclass", "subsnapshot") else Content
+    c = cls(ctype, lambda: list(chunks))
+    if kind in ("snapshot", "subsnapshot"):
+        c = testcase._copy_content(c)  # what gather_details keeps
+    return c
+
+
+def eq_observed(x, y):
+    """(x == y, y == x, not x != y, not y != x)"""
+    return (bool(x == y), bool(y == x), not bool(x != y), not bool(y != x))
+
+
+def check_eq_row(r):
     from testtools.content_type import ContentType
 
     types = {
@@ -616,12 +658,47 @@ def check_eq_row(r):
     row = r["row"]
     c1 = [bytes(b[v][0] for v in ch) for ch in row["c1"]]
     c2 = [bytes(b[v][0] for v in ch) for ch in row["c2"]]
-    x = Content(types[row["t1"]](), lambda: c1)
-    y = Content(types[row["t2"]](), lambda: c2)
-    got = (bool(x == y), bool(y == x), not bool(x != y))
-    if got != (r["equal"],) * 3:
+    x = make_operand(row.get("k1", "plain"), types[row["t1"]](), c1)
+    y = make_operand(row.get("k2", "plain"), types[row["t2"]](), c2)
+    got = eq_observed(x, y)
+    if got != (r["equal"],) * 4:
         return ("eq-is-type-and-bytes", r["equal"], got)
     return None
+
+
+def check_eq_stock():
+    """The stock subclasses (TracebackContent, StackLinesContent via StacktraceContent) against a plain Content rebuilt
+    from type + bytes and against their gather_details snapshot: equal iff type and bytes are (rule of the eq rows).
+    Yields (label, bad)."""
+    import sys
+
+    from testtools import testcase
+    from testtools.content import Content, StacktraceContent, TracebackContent
+    from testtools.content_type import ContentType
+
+    try:
+        raise ValueError("c16 \u00e9")
+    except ValueError:
+        tb = TracebackContent(sys.exc_info(), None)
+    st = StacktraceContent("pre\u4e00", "post")
+    for name, c in (("TracebackContent", tb), ("StacktraceContent", st)):
+        data = b"".join(c.iter_bytes())
+        ct = ContentType(c.content_type.type, c.content_type.subtype, dict(c.content_type.parameters))
+        other_type = ContentType("text", "plain", {"charset": "utf8"})
+        target = {}
+        testcase.gather_details({"d": c}, target)
+        cases = [
+            ("rebuilt-one-chunk", Content(ct, lambda: [data]), True),
+            ("rebuilt-bytewise", Content(ct, lambda: [data[i : i + 1] for i in range(len(data))] + [b""]), True),
+            ("snapshot", target["d"], True),
+            ("copy_content", testcase._copy_content(c), True),
+            ("other-bytes", Content(ct, lambda: [data + b"!"]), False),
+            ("other-type", Content(other_type, lambda: [data]), False),
+            ("user-subclass", user_content_class()(ct, lambda: [data[:3], data[3:]]), True),
+        ]
+        for label, other, want in cases:
+            got = eq_observed(c, other)
+            yield name + ":" + label, (None if got == (want,) * 4 else ("eq-is-type-and-bytes", want, got))
 
 
 def check_text_value(s, nbytes=None):
@@ -706,7 +783,7 @@ def run(tier, pid="C16"):
         "exploration",
         "inputs enumerated by TLC from spec/pure/Content.tla, exhaustive up to the bounds of the ct_*.cfg files: "
         "read-loop scenarios (length x chunk size x seek origin/offset before-at-after EOF x buffer_now x stream/file x "
-        "short reads x re-iteration / source mutation), decoder inputs (every valid UTF-8-shaped unit string x every cutting "
+        "short reads x iterate once | twice | source appended-truncated-rewritten before the first or between two complete iterations), decoder inputs (every valid UTF-8-shaped unit string x every cutting "
         "incl. empty chunks; no-charset = ISO-8859-1), decoder histories (every sequence of StartIter/NextChunk/Abandon/"
         "DecodeAll calls up to the bound over two contents of one charset, truncated contents included; deeper ones by "
         "tlc -simulate), ContentType parameter sets over the class alphabet, gather/mutate "
@@ -715,7 +792,7 @@ def run(tier, pid="C16"):
         "(input, concretisation). Non-trivial: read = something to read and (seek | short read | re-iteration | mutation "
         "| length multiple of chunk size); decode = a cut inside a multi-byte sequence or an empty chunk; dechist = a decode that runs after "
         "another iteration was abandoned, raised or is still suspended; ctype = a "
-        "parameter value with a non-alphanumeric class; snap = a mutation after a gather; eq = differing chunkings; "
+        "parameter value with a non-alphanumeric class; snap = a mutation after a gather; eq = differing chunkings or operand kinds (plain / subclass / snapshot); "
         "text = a non-ASCII / NUL / escaped class. Distinct by input.",
     )
     rep.assume("seek targets are positions >= 0 (offset >= 0 from the start, >= -len from the end); negative targets are outside the domain")
@@ -748,9 +825,35 @@ def run(tier, pid="C16"):
 
     tmpdir = tempfile.mkdtemp(prefix="c16-", dir=BUILD if os.path.isdir(BUILD) else None)
     big = tier != "quick"
+    pool = None
     try:
+        # All TLC runs of this check are independent and mostly JVM start-up: they are started ahead, a few at a
+        # time, and consumed in order.
+        sim_kw = dict(simulate=dict(num=120 if not big else 3000, depth=12), seed=rep.seed + 5)
+        plan = [("ct_coded_ctype.cfg", False, {}), ("ct_neg_snap.cfg", False, {}),
+                ("ct_mc_read.cfg" if not big else "ct_mc_read_big.cfg", False, {}),
+                ("ct_exp_read.cfg" if not big else "ct_exp_read_big.cfg", True, {}),
+                ("ct_mc_decode.cfg", False, {}), ("ct_exp_decode.cfg" if not big else "ct_exp_decode_big.cfg", True, {}),
+                ("ct_neg_dechist.cfg", False, {}), ("ct_mc_dechist.cfg", False, {}),
+                ("ct_exp_dechist.cfg" if not big else "ct_exp_dechist_big.cfg", True, {}), ("ct_sim_dechist.cfg", False, sim_kw),
+                ("ct_exp_ctype_one.cfg", True, {}), ("ct_exp_ctype_pairs.cfg", True, {}), ("ct_exp_ctype_triple.cfg", True, {})]
+        if big:
+            plan.append(("ct_exp_ctype_one3.cfg", True, {}))
+        plan += [("ct_exp_snap.cfg", True, {}), ("ct_exp_eq.cfg", False, {}), ("ct_exp_eq_kinds.cfg", False, {}),
+                 ("ct_exp_text.cfg" if not big else "ct_exp_text_big.cfg", False, {})]
+        pool = ThreadPoolExecutor(max_workers=3 if not big else 2)
+        futures = {}
+        for cfg, cov, kw in plan:
+            futures[cfg] = pool.submit(tlc.run_tlc, "pure", "MCContent", cfg, workers=4, coverage=cov, timeout=3000, **kw)
+
+        def fetch(cfg, coverage=False, **kw):
+            f = futures.pop(cfg, None)
+            if f is not None:
+                return f.result()
+            return tlc.run_tlc("pure", "MCContent", cfg, workers=4, coverage=coverage, timeout=3000, **kw)
+
         def tl(cfg, actions, **kw):
-            r = tlc.run_tlc("pure", "MCContent", cfg, workers=8, coverage=bool(actions), timeout=3000, **kw)
+            r = fetch(cfg, bool(actions), **kw)
             tlc.require_ok(r, "C16 " + cfg)
             if actions:
                 tlc.require_coverage(r, actions, "C16 " + cfg)
@@ -758,11 +861,11 @@ def run(tier, pid="C16"):
             return r
 
         # negative controls: the spec reproduces the recorded defect / a lazy copy is caught by the invariant
-        r = tlc.run_tlc("pure", "MCContent", "ct_coded_ctype.cfg", workers=2, timeout=600)
+        r = fetch("ct_coded_ctype.cfg")
         if r.violated != "RoundTrip":
             raise tlc.MachineryError("C16 ct_coded_ctype.cfg: expected RoundTrip violated, got %r %r" % (r.violated, r.error))
         rep.add_tlc(r, "ct_coded_ctype.cfg (asCoded: RoundTrip violated as expected)")
-        r = tlc.run_tlc("pure", "MCContent", "ct_neg_snap.cfg", workers=2, timeout=600)
+        r = fetch("ct_neg_snap.cfg")
         if r.violated != "Snapshot":
             raise tlc.MachineryError("C16 ct_neg_snap.cfg: expected Snapshot violated, got %r %r" % (r.violated, r.error))
         rep.add_tlc(r, "ct_neg_snap.cfg (lazyRef: Snapshot violated as expected)")
@@ -807,13 +910,13 @@ def run(tier, pid="C16"):
             raise tlc.MachineryError("C16 decode: nothing exported")
 
         # ---- decoder histories (two contents of one charset; interleaved / abandoned / failing iterations)
-        r = tlc.run_tlc("pure", "MCContent", "ct_neg_dechist.cfg", workers=2, timeout=600)
+        r = fetch("ct_neg_dechist.cfg")
         if r.violated != "PerIterationDecode":
             raise tlc.MachineryError("C16 ct_neg_dechist.cfg: expected PerIterationDecode violated, got %r %r" % (r.violated, r.error))
         rep.add_tlc(r, "ct_neg_dechist.cfg (sharedCached decoder: PerIterationDecode violated as expected)")
         tl("ct_mc_dechist.cfg", None)
         jobs = [("ct_exp_dechist.cfg" if not big else "ct_exp_dechist_big.cfg", {}, ["StartIter", "NextChunk", "Abandon", "DecodeAll"]),
-                ("ct_sim_dechist.cfg", dict(simulate=dict(num=60 if not big else 1500, depth=12), seed=rep.seed + 5), None)]
+                ("ct_sim_dechist.cfg", sim_kw, None)]
         for cfg, kw, acts in jobs:
             r = tl(cfg, acts, **kw)
             n = 0
@@ -886,22 +989,33 @@ def run(tier, pid="C16"):
         if n == 0:
             raise tlc.MachineryError("C16 snap: nothing exported")
 
-        # ---- equality rows
-        r = tl("ct_exp_eq.cfg", None)
-        n = 0
-        for row in tlc.exported(r):
-            n += 1
-            bad = guarded(check_eq_row, row)
-            rw = row["row"]
-            nt = rw["c1"] != rw["c2"] and (rw["d1"] or rw["d2"])
-            if nt:
-                smp("eq", {"machine": "eq", "row": rw, "equal": row["equal"]}, 2500)
-            rep.case(nontrivial_key=("eq" + jdump(rw)) if nt else None)
+        # ---- equality rows (operand kinds: plain / subclass / snapshot of either; stock subclasses)
+        for cfg in ("ct_exp_eq.cfg", "ct_exp_eq_kinds.cfg"):
+            r = tl(cfg, None)
+            n = 0
+            for row in tlc.exported(r):
+                n += 1
+                bad = guarded(check_eq_row, row)
+                rw = row["row"]
+                nt = (rw["c1"] != rw["c2"] and (rw["d1"] or rw["d2"])) or rw["k1"] != rw["k2"]
+                if nt:
+                    smp("eq", {"machine": "eq", "row": rw, "equal": row["equal"]}, 2500)
+                rep.case(nontrivial_key=("eq" + jdump(rw)) if nt else None)
+                if bad:
+                    rep.violation(bad[0], "eq:%s:%s:%s" % ("same-type" if rw["t1"] == rw["t2"] else "other-type",
+                                                          "same-bytes" if rw["d1"] == rw["d2"] else "other-bytes",
+                                                          "same-class" if (rw["k1"] == "subclass") == (rw["k2"] == "subclass") else "other-class"),
+                                  {"machine": "eq", "row": row}, bad[1], bad[2])
+            if n != r.distinct:
+                raise tlc.MachineryError("C16 %s: %d rows for %d states" % (cfg, n, r.distinct))
+        try:
+            stock = list(check_eq_stock())
+        except Exception as ex:
+            stock = [("stock", ("eq-raised", "no exception", repr(ex)))]
+        for label, bad in stock:
+            rep.case(nontrivial_key="eqstock" + label)
             if bad:
-                rep.violation(bad[0], "eq:%s:%s" % ("same-type" if rw["t1"] == rw["t2"] else "other-type", "same-bytes" if rw["d1"] == rw["d2"] else "other-bytes"),
-                              {"machine": "eq", "row": row}, bad[1], bad[2])
-        if n != r.distinct:
-            raise tlc.MachineryError("C16 eq: %d rows for %d states" % (n, r.distinct))
+                rep.violation(bad[0], "eq:stock-subclass:%s" % label.split(":")[1], {"machine": "eqstock", "case": label}, bad[1], bad[2])
 
         # ---- text / json rows
         r = tl("ct_exp_text.cfg" if not big else "ct_exp_text_big.cfg", None)
@@ -940,6 +1054,8 @@ def run(tier, pid="C16"):
         import shutil
 
         shutil.rmtree(tmpdir, ignore_errors=True)
+        if pool is not None:
+            pool.shutdown(wait=True, cancel_futures=True)
     rep.samples = [samples[m] for m in ("read", "decode", "dechist", "ctype", "snap", "text", "eq") if m in samples]
     rep.exhaustive = False
     rep.extra["explanation"] = ("exhaustive over the abstract inputs of each ct_exp_*.cfg instance; class representatives and the "
@@ -967,6 +1083,8 @@ def replay_file(path, pid="C16"):
         bad = replay_snap({"hist": sc["behaviour"]})
     elif m == "eq":
         bad = check_eq_row(sc["row"])
+    elif m == "eqstock":
+        bad = [b for l, b in check_eq_stock() if l == sc["case"] and b]
     elif m == "text":
         bad = check_text_value(sc["text"]) or check_json_value(sc["text"])
     elif m == "dechist":
